@@ -16,6 +16,7 @@ import (
 	"verifharness/iox"
 	"verifharness/refinflate"
 	"verifharness/stats"
+	"verifharness/synth"
 )
 
 // C04: decoded output does not depend on how the compressed bytes arrive or are read.
@@ -228,4 +229,139 @@ func init() {
 		_, _, err := checkC04(c, false)
 		return err
 	}
+}
+
+// TestC04Win: window-edge sweep. A first block of k short-coded literals puts the first entries
+// of a second block (literals and 258-byte matches, packed into multi-symbol lookup entries) at
+// every output offset around the 64 KiB history-buffer boundaries (65536-258-16 .. 65536+2), and
+// the compressed bytes are delivered in two pieces cut at every byte near that entry (plus the
+// all-at-once run). Oracle: C02 (== reference inflater) for the whole delivery and C04 (== the
+// all-at-once run) for every cut. Shardable.
+func TestC04Win(t *testing.T) {
+	shard, nshards := envInt("VERIF_SHARD", 0), envInt("VERIF_NSHARDS", 1)
+	count := 0
+	kstep := 3
+	if thorough() {
+		kstep = 1
+	}
+	variant := 0
+	// in-block family: ONE long dynamic block (so the vector decode loop is running with its
+	// multi-symbol table) in which a "literal + 258-byte match" (or literal, literal, 257-byte match)
+	// lookup entry starts at output offset k, followed by 400 more literals.
+	for shape := 0; shape < 2; shape++ {
+		for k := 65536 - 258 - 6; k <= 65536-258+3; k++ {
+			variant++
+			if variant%nshards != shard {
+				continue
+			}
+			plan := []synth.Run{{N: k, Lit: 'a'}, {N: 1, Lit: 'a'}}
+			if shape == 1 {
+				plan = append(plan, synth.Run{N: 1, Lit: 'a'}, synth.Run{N: 1, Len: 257, Dist: 1})
+			} else {
+				plan = append(plan, synth.Run{N: 1, Len: 258, Dist: 1})
+			}
+			plan = append(plan, synth.Run{N: 400, Lit: 'b'})
+			s := StreamSpec{Kind: "synth", Synth: &synth.Stream{Blocks: []synth.BlockSpec{
+				{Type: 0, N: 1, Seed: 1, Alpha: 256}, {Type: 2, Plan: plan, Seed: uint64(k), FreqSort: true}, {Type: 1, N: 0}}}}
+			z, _, err := validStreamOracle(s)
+			if err != nil {
+				t.Fatalf("harness: %v", err)
+			}
+			if _, _, err := checkC02(C02Case{Stream: s, Reads: []int{4096}}); err != nil {
+				saveLast("C04", C04Case{Stream: s, Entry: "plain", Reads: []int{4096}}, err)
+				t.Fatalf("C04 violated (window-edge sweep, in-block, whole delivery, k=%d): %v", k, err)
+			}
+			refOut := refinflate.Inflate(z, refinflate.Options{}).Out
+			lo := len(z) - 190
+			if lo < 1 {
+				lo = 1
+			}
+			for cut := lo; cut < len(z); cut++ {
+				c := C04Case{Stream: s, Chunks: []int{cut, len(z)}, Entry: "bufio-new", BufSize: 1 << 20, Reads: []int{4096}}
+				var out []byte
+				var rerr error
+				func() {
+					defer guardPanic(&rerr)
+					r, e := openReader(c.Entry, c.BufSize, makeSource(z, c.Chunks, false))
+					if e != nil {
+						rerr = e
+						return
+					}
+					out, rerr = readAllChunks(r, c.Reads, len(refOut)+1024)
+				}()
+				if rerr != io.EOF || !bytes.Equal(out, refOut) {
+					err := fmt.Errorf("two-piece delivery cut at byte %d of %d: %d bytes then %v; delivered at once the same stream gives %d bytes then EOF (first difference at %d)", cut, len(z), len(out), firstLine(errStr(rerr)), len(refOut), firstDiff(out, refOut))
+					saveLast("C04", c, err)
+					t.Fatalf("C04 violated (window-edge sweep, in-block, k=%d): %v", k, err)
+				}
+				if cut == lo {
+					stats.Record("C04", stats.Digest(c), true, []string{"window-edge-sweep-in-block"}, func() any { return c })
+				} else {
+					stats.Record("C04", stats.Digest(c), true, nil, nil)
+				}
+				count++
+			}
+		}
+	}
+	for _, second := range []synth.BlockSpec{
+		{Type: 2, N: 7, Seed: 1, Alpha: 2, MatchPct: 50, LenMode: 2, DistMode: 3, FreqSort: true},
+		{Type: 1, N: 7, Seed: 2, Alpha: 2, MatchPct: 50, LenMode: 2, DistMode: 3},
+		{Type: 2, N: 7, Seed: 3, Alpha: 3, MatchPct: 40, LenMode: 3, DistMode: 1, FreqSort: true, Alt258: true},
+		{Type: 0, N: 5, Seed: 4, Alpha: 256},
+	} {
+		for k := 65536 - 258 - 16; k <= 65536+4; k++ {
+			if !((k <= 65536-258+14) || k >= 65536-14) && (k%kstep != 0 || !thorough()) {
+				// quick: only the offsets right at 65536-258 and at 65536; thorough: every offset
+				continue
+			}
+			variant++
+			if variant%nshards != shard {
+				continue
+			}
+			first := synth.BlockSpec{Type: 2, N: k, Seed: uint64(k), Alpha: 2, FreqSort: true}
+			tail := synth.BlockSpec{Type: 1, N: 70, Seed: 9, Alpha: 256}
+			s := StreamSpec{Kind: "synth", Synth: &synth.Stream{Blocks: []synth.BlockSpec{first, second, tail}}}
+			z, _, err := validStreamOracle(s)
+			if err != nil {
+				t.Fatalf("harness: %v", err)
+			}
+			c2 := C02Case{Stream: s, Reads: []int{4096}}
+			if _, _, err := checkC02(c2); err != nil {
+				saveLast("C04", C04Case{Stream: s, Entry: "plain", Reads: []int{4096}}, err)
+				t.Fatalf("C04 violated (window-edge sweep, whole delivery, k=%d): %v", k, err)
+			}
+			lo := len(z) - 110
+			if lo < 1 {
+				lo = 1
+			}
+			refOut := refinflate.Inflate(z, refinflate.Options{}).Out
+			for cut := lo; cut < len(z); cut++ {
+				c := C04Case{Stream: s, Chunks: []int{cut, len(z)}, Entry: "bufio-new", BufSize: 1 << 20, Reads: []int{4096}}
+				// fast path: the stream, its reference output and the all-at-once result (checked above) are shared by all cuts
+				var out []byte
+				var rerr error
+				func() {
+					defer guardPanic(&rerr)
+					r, e := openReader(c.Entry, c.BufSize, makeSource(z, c.Chunks, false))
+					if e != nil {
+						rerr = e
+						return
+					}
+					out, rerr = readAllChunks(r, c.Reads, len(refOut)+1024)
+				}()
+				if rerr != io.EOF || !bytes.Equal(out, refOut) {
+					err := fmt.Errorf("two-piece delivery cut at byte %d of %d: %d bytes then %v; delivered at once the same stream gives %d bytes then EOF (first difference at %d)", cut, len(z), len(out), rerr, len(refOut), firstDiff(out, refOut))
+					saveLast("C04", c, err)
+					t.Fatalf("C04 violated (window-edge sweep, k=%d): %v", k, err)
+				}
+				if cut == lo {
+					stats.Record("C04", stats.Digest(c), true, []string{"window-edge-sweep"}, func() any { return c })
+				} else {
+					stats.Record("C04", stats.Digest(c), true, nil, nil)
+				}
+				count++
+			}
+		}
+	}
+	stats.Exhaustive("C04", fmt.Sprintf("window-edge sweep: 4 second-block shapes x first block of k literals, k in [65262,65292] and [65522,65540] (thorough: every k in [65262,65540], kstep %d), two-piece delivery cut at each of the last 110 compressed bytes (this shard's share)", kstep), count)
 }
